@@ -94,6 +94,13 @@ def gen_alphabet(rng):
         f = S.base_spec(rng)
         f["footprint"] = rng.random() < 0.6
         add(f)
+    if rng.random() < 0.3:
+        # a larger dispersion solve (padded grid 32..52 per side, several levels)
+        f = S.base_spec(rng)
+        f.update(nx=rng.choice([16, 20, 24, 32]), ny=rng.choice([12, 16, 24]), footprint=False, precision="double", analytic=False,
+                 halo=rng.choice([300.0, 500.0]), meas_pt=[200.0, 150.0])
+        f["domain"] = [50.0 * f["nx"], 50.0 * f["ny"]]
+        add(f)
     return alpha
 
 
@@ -143,6 +150,26 @@ def generate(seed, tier="quick", faults=True):
             ops.append({"op": "wisdom", "kind": fault.choice(WISDOM_KINDS), "seed": fault.randrange(1 << 30), "frac": fault.random()})
             if gen.random() < 0.7:
                 ops.append({"op": gen.choice(["reset", "reset", "threads_toggle"])})
+    if gen.random() < 0.3:
+        # a sandwich: the same solve before and after something that touches
+        # process-global state, with the thread setting restored in between
+        i = gen.randrange(len(alpha))
+        big = [k for k, s in enumerate(alpha) if s["nx"] * s["ny"] >= 16 * 12 and not s["footprint"]]
+        if big and gen.random() < 0.7:
+            i = gen.choice(big)
+        j = gen.randrange(len(alpha))
+        mid = gen.choice([
+            [{"op": "threads", "n": gen.choice([2, 4, 8])}, {"op": "solve", "spec": j}, {"op": "threads", "n": 1}],
+            [{"op": "threads", "n": 4}, {"op": "solve", "spec": i}, {"op": "threads", "n": 1}],
+            [{"op": "solve", "spec": j}, {"op": "reset"}],
+            [{"op": "solve", "spec": j}, {"op": "tick", "dt": 61.0, "n": 2}],
+            [{"op": "solve", "spec": j}, {"op": "clear_cache"}],
+        ])
+        sandwich = [{"op": "threads", "n": 1}, {"op": "solve", "spec": i}] + mid + [{"op": "solve", "spec": i}]
+        # keep it inside one simulated process: insert after the last exit
+        last_exit = max([k for k, o in enumerate(ops) if o["op"] == "exit"] + [-1])
+        pos = gen.randrange(last_exit + 1, len(ops) + 1)
+        ops[pos:pos] = sandwich
     procs = [{"chunksize": gen.choice([0, 0, 1, 3, 16])} for _ in range(nproc + 1)]
     return {"engine": "histsim", "property": PROP, "seed": seed, "tier": tier, "faults": faults, "alphabet": alpha, "ops": ops, "procs": procs,
             "numba_state": gen.choice(["serial_first", "parallel_first", "serial_first", "parallel_first", "parallel_only"] if tier == "thorough" else ["serial_first", "parallel_first"]),
